@@ -81,7 +81,8 @@ def perm(n):
     return st.permutations(list(range(n)))
 
 
-REL_OFFSETS = [1e-12, 1e-11, 1e-10, 5e-10, 1e-9, 5e-9, 1e-8, 1e-7, 1e-6, 1e-5]
+# from a few ulps (2e-15 ~ 9 ulp: 'tidying' of almost-round values) to 1e-5 (unit and tolerance slips)
+REL_OFFSETS = [2e-15, 5e-15, 1e-14, 3e-14, 1e-13, 1e-12, 1e-11, 1e-10, 5e-10, 1e-9, 5e-9, 1e-8, 1e-7, 1e-6, 1e-5]
 
 
 def rel_near(points, lo=-math.inf, hi=math.inf, offsets=REL_OFFSETS):
